@@ -31,6 +31,9 @@ type AppState struct {
 	Balances   map[string]*big.Int // address hex -> stake-denom balance
 	Dust       map[string]*big.Int // address hex -> balance in the second denomination
 	SupplyDust *big.Int
+	// every other denomination: per denomination the holders and the recorded supply
+	Other       map[string]map[string]*big.Int
+	SupplyOther map[string]*big.Int
 	OtherDenom bool                // some account holds a denomination other than the stake denom
 	Negative   []string            // addresses with a negative coin
 	AcctErr    []string            // undecodable account records
@@ -147,7 +150,7 @@ func (a *App) Snapshot() (st *AppState, err error) {
 			err = fmt.Errorf("snapshot panic: %v", r)
 		}
 	}()
-	st = &AppState{Raw: a.DumpAll(), HasKey: map[string]bool{}, Dust: map[string]*big.Int{}, SupplyDust: new(big.Int), Balances: map[string]*big.Int{}, Vals: map[string]posTypes.Validator{},
+	st = &AppState{Raw: a.DumpAll(), Other: map[string]map[string]*big.Int{}, SupplyOther: map[string]*big.Int{}, HasKey: map[string]bool{}, Dust: map[string]*big.Int{}, SupplyDust: new(big.Int), Balances: map[string]*big.Int{}, Vals: map[string]posTypes.Validator{},
 		Sign: map[string]posTypes.ValidatorSigningInfo{}, Missed: map[string]map[int64]bool{},
 		Awards: map[string]*big.Int{}, Burns: map[string]string{}, PrevPower: map[string]int64{}, Params: map[string]string{}}
 	st.TransientLen = len(st.Raw["transient_params"])
@@ -163,6 +166,7 @@ func (a *App) Snapshot() (st *AppState, err error) {
 						st.SupplyDust = new(big.Int).Set(c.Amount.BigInt())
 					} else if c.Denom != sdk.DefaultStakeDenom {
 						st.OtherDenom = true
+						st.SupplyOther[c.Denom] = new(big.Int).Set(c.Amount.BigInt())
 					}
 				}
 			}
@@ -184,6 +188,10 @@ func (a *App) Snapshot() (st *AppState, err error) {
 					st.Dust[addr] = new(big.Int).Set(c.Amount.BigInt())
 				} else {
 					st.OtherDenom = true
+					if st.Other[c.Denom] == nil {
+						st.Other[c.Denom] = map[string]*big.Int{}
+					}
+					st.Other[c.Denom][addr] = new(big.Int).Set(c.Amount.BigInt())
 				}
 				if c.Amount.IsNegative() {
 					st.Negative = append(st.Negative, addr)
